@@ -1,11 +1,13 @@
 package dergen
 
 import (
+	"bytes"
 	"crypto"
 	"crypto/ecdsa"
 	"crypto/rand"
 	"crypto/rsa"
 	"crypto/sha1"
+	"crypto/sha256"
 	"crypto/x509"
 	"crypto/x509/pkix"
 	"encoding/pem"
@@ -32,6 +34,13 @@ type Fixtures struct {
 	Root  *x509.Certificate
 	Pool  []*x509.Certificate // every fixture certificate
 	CRL   []byte              // a CRL issued by the fixture root (DER)
+	// CRLGenTime, CRLCritFalse: the same revocation list, correctly signed by
+	// the fixture root, in encodings a decoder accepts but Go's encoder would
+	// not choose: thisUpdate as GeneralizedTime (RFC 5280 asks for UTCTime before
+	// 2050), and an extension with an explicit `critical FALSE` (DER omits
+	// default values). An emitter that re-encodes a CRL instead of copying it
+	// changes them and breaks the issuer's signature.
+	CRLGenTime, CRLCritFalse []byte
 }
 
 func readPEMCerts(path string) ([]*x509.Certificate, error) {
@@ -153,7 +162,77 @@ func LoadFixtures() (*Fixtures, error) {
 	if err != nil {
 		return nil, fmt.Errorf("making CRL: %w", err)
 	}
+	rsaKey, ok := rk.(*rsa.PrivateKey)
+	if ok {
+		if f.CRLGenTime, err = crlVariant(f.CRL, rsaKey, "gentime"); err != nil {
+			return nil, err
+		}
+		if f.CRLCritFalse, err = crlVariant(f.CRL, rsaKey, "critfalse"); err != nil {
+			return nil, err
+		}
+	}
 	return f, nil
+}
+
+// crlVariant rebuilds the to-be-signed part of a CRL with one encoding changed
+// and signs it again (sha256WithRSAEncryption, as the original).
+func crlVariant(crl []byte, key *rsa.PrivateKey, kind string) ([]byte, error) {
+	n, err := Parse(crl)
+	if err != nil || len(n.Kids) != 3 {
+		return nil, fmt.Errorf("CRL variant: unexpected CRL structure")
+	}
+	tbs := n.Kids[0]
+	var parts [][]byte
+	timesSeen := 0
+	for _, k := range tbs.Kids {
+		raw := k.Range().Of(crl)
+		switch {
+		case kind == "gentime" && k.Class == 0 && k.Tag == 0x17 && timesSeen == 0:
+			t, err := time.Parse("060102150405Z", string(k.Content().Of(crl)))
+			if err != nil {
+				return nil, err
+			}
+			parts = append(parts, GenTime(t, ""))
+			timesSeen++
+			continue
+		case kind == "critfalse" && k.Class == 2 && k.Tag == 0 && len(k.Kids) == 1:
+			// [0] EXPLICIT Extensions: give the first extension an explicit critical FALSE
+			exts := k.Kids[0]
+			var es [][]byte
+			for i, e := range exts.Kids {
+				if i == 0 && len(e.Kids) == 2 {
+					es = append(es, Seq(e.Kids[0].Range().Of(crl), []byte{0x01, 0x01, 0x00}, e.Kids[1].Range().Of(crl)))
+				} else {
+					es = append(es, e.Range().Of(crl))
+				}
+			}
+			parts = append(parts, Ctx(0, true, Seq(es...)))
+			continue
+		}
+		if k.Class == 0 && k.Tag == 0x17 {
+			timesSeen++
+		}
+		parts = append(parts, raw)
+	}
+	newTBS := Seq(parts...)
+	d := sha256.Sum256(newTBS)
+	sig, err := rsa.SignPKCS1v15(rand.Reader, key, crypto.SHA256, d[:])
+	if err != nil {
+		return nil, err
+	}
+	out := Seq(newTBS, n.Kids[1].Range().Of(crl), BitString(sig))
+	if bytes.Equal(out, crl) {
+		return nil, fmt.Errorf("CRL variant %s: nothing changed", kind)
+	}
+	// self-check: a decoder reads it and the issuer's signature holds
+	rl, err := x509.ParseRevocationList(out)
+	if err != nil {
+		return nil, fmt.Errorf("CRL variant %s does not parse: %w", kind, err)
+	}
+	if err := rsa.VerifyPKCS1v15(&key.PublicKey, crypto.SHA256, d[:], rl.Signature); err != nil {
+		return nil, fmt.Errorf("CRL variant %s: signature: %w", kind, err)
+	}
+	return out, nil
 }
 
 var _ = pkix.Name{}
